@@ -111,12 +111,15 @@ def shapes_for(pid, tier):
         top = 8 if tier == "quick" else 10
         out += [free(n) for n in range(0, top + 1)]
         if tier == "quick":
-            out += [template("ctl", "a=b.", h, " 1") for h in (4, 7)]
+            out += [template("ctl", "a=b .", h, " 1") for h in (4, 7)]
             out += [template("rule2", "a=1", h, "b=2") for h in (2,)]
             out += [template("arr", "a=[", h, "]") for h in (6,)]
+            out += [template("map", "a={", h, "}") for h in (6,)]
+            out += [template("tag", "a=#6.", h, "(b)") for h in (5,)]
+            out += [template("bytes", "a='", h, "'") for h in (4,)]
             out += [free(n, True) for n in (4, 6)]
         else:
-            out += [template("ctl", "a=b.", h, " 1") for h in range(2, 12)]
+            out += [template("ctl", "a=b .", h, " 1") for h in range(2, 12)]
             out += [template("rule2", "a=1", h, "b=2") for h in range(0, 5)]
             out += [template("arr", "a=[", h, "]") for h in range(5, 9)]
             out += [template("map", "a={", h, "}") for h in range(5, 9)]
@@ -132,8 +135,10 @@ def shapes_for(pid, tier):
         # text and byte-string literals: escapes, controls, quotes
         hs = (6, 8) if tier == "quick" else range(0, 13)
         out += [template("text", 'a="', h, '"') for h in hs]
-        if tier == "thorough" or pid == "C07":
-            out += [template("bytes", "a='", h, "'") for h in ((4,) if tier == "quick" else range(0, 7))]
+        if tier == "thorough":
+            out += [template("bytes", "a='", h, "'") for h in range(0, 7) if h != 4 or pid != "C03"]
+        elif pid == "C07":
+            out += [template("bytes", "a='", h, "'") for h in (4,)]
         if tier == "thorough":
             out += [template("textu", 'a="', h, '"', utf8=True) for h in range(2, 7)]
     return out
